@@ -9,6 +9,8 @@ from harness import tlc
 from harness.common import MachineryError, NCPU
 
 DRIVER = 'drivers/c01_build.py'
+# deep recursion in FoldLeft needs a bigger thread stack; few GC/JIT threads because 16 JVMs run side by side
+JVM_OPTS = '-Xss32m -XX:ParallelGCThreads=2 -XX:CICompilerCount=2'
 GEN_ACTIONS = ('AddUn', 'AddBin', 'AddMAdd', 'AddSum', 'AddGen', 'Finish')
 
 
@@ -58,24 +60,24 @@ _lock = threading.Lock()
 
 
 def tlc_programs(ctx, slice_, *, cover=None, timeout=600, simulate=None, depth=None, seed=None, label=None,
-                 workers=None):
+                 workers=None, module='SynthGraphGen'):
     """All programs of a vocabulary slice (or group of slices) of SynthGraphGen.tla or, with simulate=, random
     walks of the same generator (RSpec).  The model run also checks the design invariants NaiveOK and
     DropDetected on every program.  Safe to call from several threads (own metadir per call; the
     bookkeeping of Ctx.model_check is repeated here because that method uses one shared work dir)."""
     label = label or 'slice ' + slice_
-    wd = os.path.join(ctx.work, 'gen_%s_%s' % (slice_, 'sim' if simulate else 'bfs'))
-    kw = dict(env={'VERIF_SLICE': slice_, 'JAVA_TOOL_OPTIONS': '-Xss32m'}, timeout=timeout)
+    wd = os.path.join(ctx.work, 'gen_%s_%s_%s' % (module, slice_, 'sim' if simulate else 'bfs'))
+    kw = dict(env={'VERIF_SLICE': slice_, 'JAVA_TOOL_OPTIONS': JVM_OPTS}, timeout=timeout)
     cover = tuple(cover or ())
     if simulate:
         kw.update(simulate=simulate, depth=depth, seed=seed, workers=1)
         cfg = 'SynthGraphGen_sim.cfg'
     else:
         kw.update(workers=workers or NCPU, coverage=bool(cover))
-        cfg = 'SynthGraphGen.cfg'
-    r = tlc.run('SynthGraphGen', cfg, wd, **kw)
+        cfg = module + '.cfg'
+    r = tlc.run(module, cfg, wd, **kw)
     shutil.rmtree(wd, ignore_errors=True)
-    run = dict(module='SynthGraphGen', cfg=cfg, label=label, **r.summary())
+    run = dict(module=module, cfg=cfg, label=label, **r.summary())
     if cover:
         run['actions_taken'] = {k: v[0] for k, v in sorted(r.coverage.items()) if k in cover}
     with _lock:
@@ -95,7 +97,7 @@ def tlc_programs(ctx, slice_, *, cover=None, timeout=600, simulate=None, depth=N
                 continue
             seen.add(js)
             progs.append(json.loads(js))
-    if not progs:
+    if not progs and module == 'SynthGraphGen':
         raise MachineryError('slice %s produced no programs' % slice_)
     return progs
 
